@@ -69,7 +69,7 @@ func controlCases(thorough bool) {
 				out = append(out, Item{Format: 2, Control: true, Base: m, Last: m, Recs: []Rec{{
 					Offset: m, TsMs: 1700000000000,
 					Key:   []byte{0, 0, byte(abort >> 8), byte(abort)}, // version 0, type abort(0)/commit(1)
-					Value: []byte{0, 0, 0, 0, 0, byte(1 + r.Intn(9))}, // version 0, coordinator epoch
+					Value: []byte{0, 0, 0, 0, 0, byte(1 + r.Intn(9))},  // version 0, coordinator epoch
 				}}})
 			}
 		}
